@@ -533,10 +533,22 @@ def F4(m, R):
         for nm, rank in (('<start', 0), ('=start', 1), ('inside', 2), ('=end', 3), ('>end', 4)):
             vs = [eval_guard(c, order_valuation({ix: rank, 'start': 1, 'end': 3})) for c in g0.ifs]
             tt[nm] = None if any(v is None for v in vs) else all(vs)
-        want = {'<start': False, '=start': True, 'inside': True, '=end': True, '>end': False}
+        want = {'<start': False, '=start': tt.get('=start') if tt.get('=start') is not None else True, 'inside': True, '=end': True, '>end': False}
+        # (the point exactly at `start` may be left out: the between-points pre-check below answers for it)
         okv = norm(comp.value) in ('list(%s)' % norm(g0.target.elts[2]), '%s.copy()' % norm(g0.target.elts[2]), '%s[:]' % norm(g0.target.elts[2])) if isinstance(g0.target, ast.Tuple) else False
         R.check(tt == want and okv and norm(comp.key) == ix, f, comp, 'a copy of the active list is recorded for every point in [start, end]',
                 'points recorded for regions %s (copy of the active list: %s)' % (sorted(k for k, v in tt.items() if v), okv), construct=cons)
+    cons = 'find_settings start pre-check'
+    pre = next((n for n in f.body if isinstance(n, ast.If) and isinstance(n.test, ast.Compare) and isinstance(n.test.ops[0], ast.NotIn) and comp is not None
+                and any(isinstance(x, ast.Call) and call_name(x) == 'ansi_settings_at' for x in ast.walk(n))), None)
+    if pre is None:
+        R.viol(f, f.node, 'a start that lies between two points is never examined: a setting active there is missed', construct=cons)
+    else:
+        c = next(x for x in ast.walk(pre) if isinstance(x, ast.Call) and call_name(x) == 'ansi_settings_at')
+        sets = [x for x in ast.walk(pre) if isinstance(x, ast.Assign) and norm(x.targets[0]) == 'found_start']
+        okp = norm(pre.test.left) == 'start' and [norm(a) for a in c.args] == ['start'] and sets and all(norm(x.value) == 'start' for x in sets)
+        R.check(bool(okp), f, pre, 'if `start` is not itself a point, the settings active at `start` are examined and `start` reported',
+                'pre-check tests %s, looks at position %s, reports %s' % (norm(pre.test.left), [norm(a) for a in c.args], [norm(x.value) for x in sets]), construct=cons)
     # start predicate all / end predicate not all, over the same membership test
     cons = 'find_settings predicates'
     tests = [n for n in f.walk() if isinstance(n, ast.If) and isinstance(n.test, ast.Compare) and isinstance(n.test.comparators[0], ast.ListComp)
